@@ -354,7 +354,7 @@ def plan(tier, seed):
     budget = 60 if quick else 1200
     for g, k in Ks.items():
         for by in (False, True):
-            Lg = (3 if k > 8 else 4) if quick else (4 if k > 8 else 6)
+            Lg = (3 if k > 8 else 4) if quick else (4 if k > 6 else 5)
             if by and quick and k > 8:
                 Lg = 2
             npaths = sum(k ** n for n in range(Lg + 1))
@@ -385,7 +385,7 @@ def plan(tier, seed):
                            'bound': {'chars': Lg, 'classes': k}})
     for g in ('kw', 'letx', 'lines'):
         k = TK[g]
-        Lg = (2 if k > 9 else 3) if quick else (3 if k > 9 else 5)
+        Lg = (2 if k > 9 else 3) if quick else (3 if k > 9 else 4)
         if g == 'kw':
             Lg += 1     # "if if" style inputs need 5 characters: use token-friendly length where affordable
         npaths = sum(k ** n for n in range(Lg + 1))
